@@ -54,6 +54,10 @@ func c25ProgSource(prog, edit, tag string) string {
 		if edit == "v2" {
 			inc = "2"
 		}
+		if edit == "kind" {
+			// the same declaration at the same place, another kind
+			return "gauge n_" + tag + "\n/^E(?P<x>\\S+)/ {\n  n_" + tag + " += int($x) * 1\n}\n# kind\n"
+		}
 		return "counter n_" + tag + "\n/^E(?P<x>\\S+)/ {\n  n_" + tag + " += int($x) * " + inc + "\n}\n# " + edit + "\n"
 	case "b":
 		return "counter c_" + tag + "\n/x/ {\n  c_" + tag + "++\n# " + edit + "\n"
@@ -135,6 +139,7 @@ func runC25x(c c25Case) *vstat.Failure {
 	ps := map[string]*pstate{"e": {}, "b": {}, "k": {}}
 	loads, unloads, loadErrs := map[string]int64{}, map[string]int64{}, map[string]int64{}
 	var rtErrs int64
+	eKind := "" // kind under which program e's metric is registered ("" = never loaded)
 	applyProg := func(st c25Step) {
 		p := ps[st.Prog]
 		if p == nil {
@@ -178,15 +183,26 @@ func runC25x(c c25Case) *vstat.Failure {
 				}
 				continue
 			}
+			kindOf := "counter"
+			if p.onDisk == "kind" {
+				kindOf = "gauge"
+			}
 			switch {
 			case prog == "b" || prog == "k" || p.onDisk == "broken":
 				// b: compile error; k: refused at registration; every scan tries again
 				loadErrs[n]++
 			case p.running == p.onDisk:
 				// byte-identical: not a load
+			case prog == "e" && eKind != "" && eKind != kindOf:
+				// the metric of an earlier version (running or unloaded) is still
+				// registered with the other kind: refused at registration
+				loadErrs[n]++
 			default:
 				p.running = p.onDisk
 				loads[n]++
+				if prog == "e" {
+					eKind = kindOf
+				}
 			}
 		}
 	}
@@ -417,7 +433,7 @@ func TestC25(t *testing.T) {
 			c.Files = rapid.IntRange(1, 3).Draw(rt, "files")
 			progStep := func(label string) c25Step {
 				p := rapid.SampledFrom([]string{"e", "e", "e", "b", "k"}).Draw(rt, label+"prog")
-				ed := rapid.SampledFrom([]string{"v1", "v2", "same", "broken", "remove"}).Draw(rt, label+"edit")
+				ed := rapid.SampledFrom([]string{"v1", "v2", "same", "broken", "remove", "kind"}).Draw(rt, label+"edit")
 				return c25Step{Op: "prog", Prog: p, Edit: ed}
 			}
 			if rapid.IntRange(0, 3).Draw(rt, "inite") > 0 {
